@@ -4,7 +4,10 @@ from concurrent.futures import ThreadPoolExecutor
 
 VERIF = os.path.dirname(os.path.dirname(os.path.abspath(__file__)))
 REPO = os.environ.get('VERIF_REPO', '/repo')
-BUILD = os.path.join(VERIF, 'build')
+BUILD = os.environ.get('VERIF_BUILD', os.path.join(VERIF, 'build'))
+# runs against a scratch copy of the repository (mutation trials) keep their evidence out of /verif/evidence
+EVIDENCE = os.path.join(VERIF, 'evidence') if REPO == '/repo' else os.path.join(BUILD, 'evidence')
+REPLAY = os.path.join(VERIF, 'replay') if REPO == '/repo' else os.path.join(BUILD, 'replay')
 NCPU = os.cpu_count() or 16
 
 GUARD = '-DPHOTON_VERIF=1'
@@ -331,7 +334,7 @@ def plan_execs(prop, spec, tier, seed):
 
 
 def write_replay(prop, e, v):
-    d = os.path.join(VERIF, 'replay', prop)
+    d = os.path.join(REPLAY, prop)
     os.makedirs(d, exist_ok=True)
     keyslug = re.sub(r'[^A-Za-z0-9_.-]+', '_', v['key'])[:80]
     p = os.path.join(d, '%s-%s-s%d-e%d.json' % (keyslug, e.flavor, e.seed, e.index))
@@ -357,7 +360,7 @@ def run_check(prop, tier, seed, registry, replay=None, jobs=None):
     from registry import CHECKS
     spec = CHECKS[prop]
     t0 = time.time()
-    scratch = os.path.join(VERIF, 'scratch', '%s-%d' % (prop, os.getpid()))
+    scratch = os.path.join(VERIF if REPO == '/repo' else BUILD, 'scratch', '%s-%d' % (prop, os.getpid()))
     os.makedirs(scratch, exist_ok=True)
     known = load_known()
     try:
@@ -519,8 +522,8 @@ def conclude(prop, spec, tier, seed, done, known, t0, replay):
     if exhaustive is not None:
         ev['coverage']['exhaustive'] = bool(exhaustive)
     if not replay:
-        os.makedirs(os.path.join(VERIF, 'evidence'), exist_ok=True)
-        json.dump(ev, open(os.path.join(VERIF, 'evidence', prop + '.json'), 'w'), indent=1)
+        os.makedirs(EVIDENCE, exist_ok=True)
+        json.dump(ev, open(os.path.join(EVIDENCE, prop + '.json'), 'w'), indent=1)
     print('%s tier=%s seed=%d: executions=%d held=%d violated=%d inconclusive=%d error=%d | evaluations=%d '
           'distinct_nontrivial=%d events=%d | %.1fs'
           % (prop, tier, seed, len(done), n_ok, n_viol, n_inc, n_err, evaluations, distinct, events, wall))
